@@ -6,5 +6,6 @@ CONSTANTS
   BugKeepOnFlush = FALSE
   TrackerMutex = TRUE
   Prog <- P7
+  Post <- Probe2
 INVARIANTS Linearizable NoLostWakeup
 PROPERTIES Terminates
